@@ -124,6 +124,7 @@ func (sp *vhStreamSpec) goroutine(dump int, tag string, created bool) {
 //	6 race report (2 operations, 1 creation section), text
 //	7 dump(1), blank, race report, text              (dump followed by a race report)
 //	8 text, separator, text (no report)              9 text, separator, warning, text
+//	10 indented dump(2)   11 CRLF dump with minutes/lock/aggregate/elision   12 elided frames, creator id, unavailable stack
 func vhSkeleton(sk int) *vhStreamSpec {
 	sp := &vhStreamSpec{}
 	text := func(tag string) { sp.add(-1, vhJunk(tag, 3), []byte("\n")) }
@@ -193,11 +194,52 @@ func vhSkeleton(sk int) *vhStreamSpec {
 		text("t0")
 		sp.add(-1, []byte(vhSep+"\n"))
 		text("t1")
-	default:
+	case 9:
 		text("t0")
 		sp.add(-1, []byte(vhSep+"\n"))
 		sp.add(-1, []byte(vhWarn+"\n"))
 		text("t1")
+	case 10:
+		// uniformly indented dump of two goroutines
+		text("t0")
+		ind := []byte("  ")
+		for gi := 0; gi < 2; gi++ {
+			d := vhDigitsC("i"+string(rune('0'+gi))+".id", 1)
+			sp.add(0, ind, []byte("goroutine "), d, []byte(" [select]:\n"))
+			sp.add(0, ind, []byte("main.f(0x1)\n"))
+			sp.add(0, ind, []byte("\t/a.go:1 +0x1\n"))
+			sp.add(0, []byte("\n"))
+		}
+		// the text after an indented dump carries the same indentation (a line
+		// with another indentation is reported as an error by design)
+		sp.add(-1, ind, vhJunk("t1", 3), []byte("\n"))
+		sp.dumps, sp.gor = 1, []int{2}
+	case 11:
+		// CRLF line endings throughout the dump
+		text("t0")
+		d := vhDigitsC("c.id", 2)
+		sp.add(0, []byte("goroutine "), d, []byte(" [chan receive, 3 minutes, locked to thread]:\r\n"))
+		sp.add(0, []byte("main.f({0x1, 0x2}, ...)\r\n"))
+		sp.add(0, []byte("\t/a.go:1 +0x1\r\n"))
+		sp.add(0, []byte("\r\n"))
+		text("t1")
+		sp.dumps, sp.gor = 1, []int{1}
+	default:
+		// elided frames, unavailable stack, creator with goroutine id
+		sp.add(0, []byte("goroutine 1 [running]:\n"))
+		sp.add(0, []byte("main.f()\n"))
+		sp.add(0, []byte("\t/a.go:1 +0x1\n"))
+		sp.add(0, []byte("...5 frames elided...\n"))
+		sp.add(0, []byte("main.g()\n"))
+		sp.add(0, []byte("\t/a.go:2 +0x1\n"))
+		sp.add(0, []byte("created by main.h in goroutine 7\n"))
+		sp.add(0, []byte("\t/a.go:3 +0x1\n"))
+		sp.add(0, []byte("\n"))
+		sp.add(0, []byte("goroutine 2 [runnable]:\n"))
+		sp.add(0, []byte("\tgoroutine running on other thread; stack unavailable\n"))
+		sp.add(0, []byte("\n"))
+		text("t1")
+		sp.dumps, sp.gor = 1, []int{2}
 	}
 	return sp
 }
@@ -223,13 +265,13 @@ func (c *vhChain) Read(p []byte) (int, error) {
 // text outside the dumps in order, and terminates with EOF.  (C02, C07, C11)
 //
 //verif:prop C07
-//verif:param sk 0..7
+//verif:param sk 0..7,10..12
 func VH_E2E_Resume(sk int) { vhResume(sk, "C07") }
 
 // VH_C02_Conserve: the same run, asserted as stream conservation.
 //
 //verif:prop C02
-//verif:param sk 0..9
+//verif:param sk 0..12
 func VH_C02_Conserve(sk int) { vhResume(sk, "C02") }
 
 func vhResume(sk int, _ string) {
@@ -291,7 +333,7 @@ func vhResume(sk int, _ string) {
 // error, and what is forwarded is a prefix of what the uncut run forwards.
 //
 //verif:prop C10
-//verif:param sk 1,3,6
+//verif:param sk 1,3,6,10,11,12
 //verif:param cut quick=0..160 thorough=0..400
 //verif:param failure 0..3
 func VH_C10_Cut(sk, cut, failure int) {
@@ -382,7 +424,13 @@ func vhGoroutineEnds(sp *vhStreamSpec) []int {
 	var ends []int
 	isHdr := func(l vhLineRec) bool {
 		b := sp.data[l.start:l.end]
-		return len(b) > 10 && (string(b[:10]) == "goroutine " || string(b[:9]) == "Write at " || string(b[:9]) == "Previous ")
+		for len(b) > 0 && (b[0] == ' ' || b[0] == '\t') {
+			b = b[1:]
+		}
+		if len(b) > 11 && string(b[:10]) == "goroutine " && b[10] != 'r' {
+			return true // "goroutine N [...]:" but not "goroutine running on other thread"
+		}
+		return len(b) > 10 && (string(b[:9]) == "Write at " || string(b[:9]) == "Previous ")
 	}
 	isSection := func(l vhLineRec) bool {
 		b := sp.data[l.start:l.end]
